@@ -376,6 +376,29 @@ package fsutil
 //@   ensures private_copy: result1 == nil ==> isptr(result0, StatInfo) && asptr(result0, StatInfo) != nil && asptr(result0, StatInfo).Stat != nil && fresh(asptr(result0, StatInfo).Stat) && asptr(result0, StatInfo).Stat.Path == s.Stat.Path && asptr(result0, StatInfo).Stat.Mode == s.Stat.Mode && asptr(result0, StatInfo).Stat.Linkname == s.Stat.Linkname
 //@   at call mkstat: once_from_own_entry: s.Stat == nil && arg0 == s.origpath && arg1 == s.path && arg3 == s.seenFiles
 
+// the os.FileInfo adaptor over a stat exposes the stat's own values, all mode bits included
+// (setuid/setgid/sticky travel in FileMode's high bits)
+//@ func StatInfo.Mode
+//@   property C17 C01 C05 C09 C13
+//@   requires s != nil && s.Stat != nil
+//@   ensures all_bits: result == os.FileMode(s.Stat.Mode)
+//@ func StatInfo.Size
+//@   property C17 C01 C09
+//@   requires s != nil && s.Stat != nil
+//@   ensures result == s.Stat.Size
+//@ func StatInfo.IsDir
+//@   property C17 C01 C09
+//@   requires s != nil && s.Stat != nil
+//@   ensures result == (os.FileMode(s.Stat.Mode) & os.ModeDir != 0)
+//@ func StatInfo.Sys
+//@   property C17 C01 C05 C09
+//@   requires s != nil
+//@   ensures isptr(result, types.Stat) && asptr(result, types.Stat) == s.Stat
+//@ func StatInfo.Name
+//@   property C17 C09
+//@   requires s != nil && s.Stat != nil
+//@   ensures result == filepath.Base(s.Stat.Path)
+
 // opening goes to the real file below the root / to the wrapped view
 //@ func fs.Open
 //@   property C11 C06
